@@ -10,6 +10,7 @@ from ..astutil import call_name, calls_in, unparse
 from ..cfg import CFG, LocalDefs, path_text
 from ..index import AnalysisError
 from ..inventory import stores_to_attr
+from ..inventory import only_called_from
 from ..report import Ctx
 from .common import node_calls, nodes_calling
 
@@ -121,6 +122,10 @@ def r18_2(ctx: Ctx) -> None:
     for s in stores_to_attr(ix, ["current_load", "bandwidth_load"]):
         n += 1
         reason = LOAD_WRITERS.get((s.attr, s.owner))
+        if reason is None:
+            via = only_called_from(ix, s.fn, [o for (a, o) in LOAD_WRITERS if a == s.attr])
+            if via:
+                reason = f"helper called only from {via}"
         ctx.record("R18.2", f"{s.path}::{s.owner}::{s.kind} {s.attr}", s.where, reason is not None,
                    reason or "unlisted writer of a load counter (can hide or forge traffic)")
     ctx.floor("R18.2", "writers of load counters", n, 6)
@@ -165,6 +170,18 @@ def r18_4(ctx: Ctx) -> None:
         ld = LocalDefs(f.node)
         acc = [n for n in g.nodes if n.kind == "stmt" and isinstance(n.ast, ast.AugAssign) and isinstance(n.ast.op, ast.Add)
                and attr in unparse(n.ast.target)]
+        helper_amount = None
+        if not acc and f.cls is not None:
+            # extract-method form: self._helper(amount) whose body does the `load += amount`
+            for n in g.nodes:
+                for c in node_calls(n):
+                    if isinstance(c.func, ast.Attribute) and unparse(c.func.value) == "self":
+                        h = ix.find_method(f.cls, c.func.attr)
+                        if h is not None and not isinstance(h.node, ast.Lambda):
+                            inner = [x for x in ast.walk(h.node) if isinstance(x, ast.AugAssign) and isinstance(x.op, ast.Add) and attr in unparse(x.target)]
+                            if inner and c.args:
+                                acc.append(n)
+                                helper_amount = c.args[0]
         deliver = nodes_calling(g, ["receive_frame"])
         if not acc or not deliver:
             raise AnalysisError(f"R18.4: accounting or delivery statement not found in {spec}")
@@ -174,7 +191,7 @@ def r18_4(ctx: Ctx) -> None:
         ctx.record("R18.4", ctx.key(f, "account before hand-off"), f.loc(acc[0].ast), ok,
                    "the load increase dominates receiver.receive_frame(frame)" if ok else
                    "the frame is delivered (and any reply it triggers is admitted) before its own load is accounted", path_text(p))
-        amt = ld.expand(acc[0].ast.value)
+        amt = ld.expand(helper_amount if helper_amount is not None else acc[0].ast.value)
         ok_amt = unparse(amt) == "frame.size_Mbits"
         ctx.record("R18.4", ctx.key(f, "accounted amount is frame.size_Mbits"), f.loc(acc[0].ast), ok_amt, f"adds {unparse(amt)}")
         lo, hi = g.count_range(lambda n: n in acc)
